@@ -2,6 +2,9 @@
 import fcntl, glob, hashlib, json, os, re, shutil, subprocess, sys
 
 ROOT = os.path.abspath(os.path.join(os.path.dirname(os.path.abspath(__file__)), ".."))
+# /repo unless a sandboxed copy of the whole machinery is pointed elsewhere (tools/mut_sandbox.sh); the harness's path
+# dependency in harness/Cargo.toml has to point at the same place
+REPO = os.environ.get("EVENIO_REPO", "/repo")
 CACHE = os.path.join(ROOT, ".cache")
 LEAN = os.path.join(ROOT, "lean")
 HARNESS = os.path.join(ROOT, "harness")
@@ -30,7 +33,7 @@ class Lock:
 
 def repo_fingerprint():
     h = hashlib.sha256()
-    for root, dirs, files in os.walk("/repo"):
+    for root, dirs, files in os.walk(REPO):
         dirs[:] = sorted(d for d in dirs if d not in ("target", ".git"))
         for fn in sorted(files):
             if fn.endswith((".rs", ".toml", ".lock")):
@@ -112,8 +115,8 @@ def step_harness(profiles, features=()):
     ok = True
     log = ""
     lock = os.path.join(HARNESS, "Cargo.lock")
-    if not os.path.exists(lock) and os.path.exists("/repo/Cargo.lock"):
-        shutil.copy("/repo/Cargo.lock", lock)
+    if not os.path.exists(lock) and os.path.exists(os.path.join(REPO, "Cargo.lock")):
+        shutil.copy(os.path.join(REPO, "Cargo.lock"), lock)
     for prof in profiles:
         cmd = ["cargo", "build", "--offline"] + (["--release"] if prof == "release" else [])
         if features:
